@@ -27,7 +27,7 @@ theorem C13_listing_is_reach (db : Db) (hns : NoUnsetup db) (top : Prod) :
       ∀ v, v ∈ out.map (·.prod) ↔ (Listed db [] top v ∧ v ≠ top) := by
   obtain ⟨o, st, h⟩ := depsOf_some db hns [] db.fuel top 1 St.empty (fuel_enough db)
   have hl : listing db db.fuel [] top = some (o.filter (fun e => e.prod != top), st) := by simp [listing, h]
-  refine ⟨o.filter (fun e => e.prod != top), by simp [getDependentProducts, hl, tableMissing_false hns top], ?_⟩
+  refine ⟨o.filter (fun e => e.prod != top), by simp [getDependentProducts, finishListing, hl, tableMissing_false hns top], ?_⟩
   intro v
   rw [← depsOf_listed hns h v]
   simp only [List.mem_map, List.mem_filter, bne_iff_ne, ne_eq]
